@@ -9,8 +9,8 @@ from . import msgs as M
 from .build import E, T
 
 # stub S10: timestamps are concrete strings chosen by symbolic index
-STAMPS = ['2022-03-04T12:30:00', '2022-11-16T13:00:05', '2023-02-01T00:00:00']
-STAMP_VALUES = [datetime(2022, 3, 4, 12, 30, 0), datetime(2022, 11, 16, 13, 0, 5), datetime(2023, 2, 1)]
+STAMPS = ['2022-03-04T12:29:45', '2022-11-16T13:00', '2023-02-01T00:00:07']
+STAMP_VALUES = [datetime(2022, 3, 4, 12, 29, 45), datetime(2022, 11, 16, 13, 0, 0), datetime(2023, 2, 1, 0, 0, 7)]
 
 # timing variants of a story: which of StoryDuration / TextTime / MediaTime exist
 VARIANTS = {
@@ -66,11 +66,19 @@ def timing_cell(P, A):
     for i in range(N):
         st = STAMPS[started[i]] if started[i] is not None else None
         en = STAMPS[ended[i]] if ended[i] is not None else None
-        stories.append(B.story(ids[i], slug='s', timing=timing(variants[i], sd[i], tt[i], mt_[i], st, en),
-                               body=[T('p', 'x')]))
+        tb_ = timing(variants[i], sd[i], tt[i], mt_[i], st, en)
+        if P.get('meta_last'):
+            # the layout a roStorySend leaves behind: an item with its own payload first, the story's block last
+            own = B.item('it%d' % i, note_text='n', extra=B.decoys('zz', 'yy'))
+            stories.append(E('story', T('storyID', ids[i]), T('storySlug', 's'), own, T('p', 'x'), tb_))
+        else:
+            stories.append(B.story(ids[i], slug='s', timing=tb_, body=[T('p', 'x')]))
     ed = P.get('edstart', 'present')
     lead = 3 if ed in ('present', 'blank') else 2
     ro = B.running_order(stories, lead=lead, edstart=STAMPS[0] if ed == 'present' else None)
+    if ed == 'after':
+        # roEdStart added later by a roMetadataReplace: it sits after the stories
+        B.rc_of(ro).append(T('roEdStart', STAMPS[0]))
     if P.get('pre_op'):
         # the relations must hold again after a merge that reorders the stories
         out0 = B.merge(ro, M.ea_story_swap(ids[0], ids[N - 1]))
@@ -80,7 +88,7 @@ def timing_cell(P, A):
         order = [N - 1] + list(range(1, N - 1)) + [0] if N > 1 else [0]
     else:
         order = list(range(N))
-    ro_start = STAMP_VALUES[0] if ed == 'present' else None
+    ro_start = STAMP_VALUES[0] if ed in ('present', 'after') else None
     variants, started, ended = list(variants), list(started), list(ended)
     sig = check_timing(ro, order, variants, sd, tt, mt_, started, ended, ro_start, N)
     r = P.get('resend')
@@ -97,6 +105,15 @@ def timing_cell(P, A):
         sig = check_timing(ro, order, variants, sd, tt, mt_, started, ended, ro_start, N)
         if sig is not None:
             sig = 'after-resend-' + sig
+    if sig is None and P.get('restart') is not None:
+        # history: the accessors have been read; a roMetadataReplace now changes (or first supplies) roEdStart
+        o = B.merge(ro, M.metadata_replace([T('roSlug', 'again'), T('roEdStart', STAMPS[P['restart']])]))
+        if o.raised:
+            B.note(sig='restart-failed', observed=B.conc(o.exc))
+            return False
+        sig = check_timing(ro, order, variants, sd, tt, mt_, started, ended, STAMP_VALUES[P['restart']], N)
+        if sig is not None:
+            sig = 'after-new-roEdStart-' + sig
     if B.Ctx.replay:
         B.note(sig=sig)
     return sig is None
@@ -277,6 +294,16 @@ def accessor_cell(P, A):
             if sig:
                 break
     if sig is None:
+        ed_ = P.get('edstart', 'present')
+        if not same(got['start'], STAMP_VALUES[0] if ed_ == 'present' else None):
+            sig = 'ro-start-differs-from-roEdStart'
+        elif got['stories'] and not same(got['end'], got['stories'][-1]['end']):
+            sig = 'ro-end-differs-from-last-story-end'
+        else:
+            for g, st_flag in zip(got['stories'], (P.get('started') or []) + [None] * 9):
+                if st_flag and not step and not same(g['start'], STAMP_VALUES[1]):
+                    sig = 'story-start-differs-from-StoryStarted'
+    if sig is None:
         all_have = all(s['duration'] is not None for s in spec)
         if all_have and not same(got['duration'], sum(s['duration'] for s in spec)):
             sig = 'ro-duration'
@@ -362,7 +389,7 @@ def script_cell(P, A):
                 sb.append(('p', t))
                 ptexts.append(t)
             elif ch == 'i':
-                iid = 'I%d%d' % (si, j)
+                iid = 'I%d%d' % (si, j) if not P.get('same_item_ids') else 'SAME'     # a sting cued twice
                 body.append(B.item(iid))
                 sb.append(('item', iid))
             else:
@@ -370,18 +397,19 @@ def script_cell(P, A):
         stories.append((body, sb, spec_script(ptexts)))
     els = []
     via_send = P.get('send')
+    sid_of = lambda si: {'dup': 'S', 'blank': None}.get(P.get('story_ids'), 'S%d' % si)   # story IDs may repeat / be blank
     for si, (body, sb, scr) in enumerate(stories):
         if via_send is not None and si == via_send:
-            els.append(B.story('S%d' % si, slug='s', body=[T('p', 'old')]))
+            els.append(B.story(sid_of(si), slug='s', body=[T('p', 'old')]))
         else:
-            els.append(B.story('S%d' % si, slug='s', body=body))
+            els.append(B.story(sid_of(si), slug='s', body=body))
     ro = B.running_order(els, lead=2)
     if via_send is not None:
         body = stories[via_send][0]
         for b in body:
             if b.tag == 'item':
                 b.tag = 'storyItem'
-        o = B.merge(ro, M.story_send('S%d' % via_send, body=body, pre=[]))
+        o = B.merge(ro, M.story_send(sid_of(via_send), body=body, pre=[]))
         if o.raised:
             B.note(sig='send-raised-' + type(o.exc).__name__, observed=B.conc(o.exc))
             return False
